@@ -5,14 +5,14 @@ import json, subprocess
 def conv(typ, what):
     return dict(category="exploration", design="DESIGN.md §2, §3",
       technique="runtime monitoring: reference-model monitor executing the script emitted by the real drc, semantic equivalence + second compare oracle",
-      text=f"Seeded (device, target) pairs for {typ} ({what}) are fed to the real drc; the printed script is executed command by command on an independent device model; the resulting state must be semantically equivalent to the target, a second compare of the dumped model must be empty and 'device unchanged' is only accepted for equivalent devices. quick 1500 pairs, thorough 40000.",
-      note="Device semantics are those of the model (written from CLI/API documentation, Appendix A of DESIGN.md); the generators cover the edit operations listed in the evidence rule; unmodelled commands make a case inconclusive, a rejected command leaves the case to C08.")
+      text=f"Seeded (device, target) pairs for {typ} ({what}) are fed to the real drc; the printed script is executed command by command on an independent device model; the resulting state must be semantically equivalent to the target, a second compare of the dumped model must be empty and 'device unchanged' is only accepted for equivalent devices; a command the model refuses under the rules of C08 and a tool crash on a valid pair count as not converged. PAN-OS and NSX: every 8th pair is a complete live approve against the HTTPS simulator backed by the model. quick 1500 pairs, thorough 40000.",
+      note="Device semantics are those of the model (written from CLI/API documentation, Appendix A of DESIGN.md); the generators cover the edit operations listed in the evidence rule; unmodelled commands make a case inconclusive. Generators were extended after each of three rounds of seeded changes (DESIGN.md 8.4).")
 
 CLAIMED = {
  "C20": dict(
    category="exploration", design="DESIGN.md §3 C20",
    technique="runtime monitoring: exit-status/stderr/watchdog oracle over an enumerated input-mutation family run through the real binaries",
-   text="Every member of a deterministic mutation family (word truncations, token delete/dup/swap, indentation, structural JSON/XML damage, garbage files; each text at all four argument positions) derived from all configuration texts of the repository's test data is executed by the real drc / missing-approve binaries; thorough enumerates the whole family, quick a seeded sample. A crash site (top repository frame + panic class) not listed in known_findings.json is a violation.",
+   text="Every member of a deterministic mutation family (word truncations, token delete/dup/swap, indentation, structural JSON/XML damage, garbage files; each text at all four argument positions) derived from all configuration texts of the repository's test data, the valid pairs of all generators plus mutations of some of them, and info-file variants in live sessions of all device types (drc and do-approve, reachable and unreachable device) is executed by the real binaries; thorough enumerates the whole family, quick a seeded sample. A crash site (top repository frame + panic class) not listed in known_findings.json is a violation.",
    note="Trusted: Go runtime prints 'panic:'/'fatal error:' on crashes; 20 s watchdog re-checked serially with 120 s. Coverage is the enumerated family only, not all byte strings."),
 }
 
@@ -20,12 +20,12 @@ CLAIMED.update({
  "C16": dict(
    category="exploration", design="DESIGN.md §3 C16",
    technique="runtime monitoring: N fresh processes per input, byte comparison of stdout / exit status / WARNING lines",
-   text="Tie-rich hand-built inputs for all five device types (k identical groups, equal crypto peers, multi-option rule differences, many same-kind raw objects), every file-mode pair of the repository's test data and generated convergence pairs are each executed by 16 (quick) / 64 (thorough) fresh drc processes; any difference in script, exit status or warnings is a violation.",
+   text="Tie-rich hand-built inputs for all five device types (k identical groups, equal crypto peers, multi-option rule differences, many same-kind raw objects), one pair holding every rule spelling the Linux normaliser rewrites, every file-mode pair of the repository's test data and generated convergence pairs of all five device types are each executed by 16 (quick) / 64 (thorough) fresh drc processes; any difference in script, exit status or warnings is a violation.",
    note="Go randomises map iteration per range statement; N runs sample the orders, they do not enumerate them. ERROR>>> text and info lines are outside the statement and only recorded as anomalies."),
  "C18": dict(
    category="exploration", design="DESIGN.md §3 C18",
    technique="runtime monitoring: order predicates over the observed effective target (script of drc EMPTY_DEVICE B) with uniquely tagged lines",
-   text="A combination table (device type x parts x ACL/chain shape x APPEND mode x raw line pattern, ~800 cases, enumerated completely in thorough) plus non-mergeable raw entries is run through the real drc; completeness (exactly once), per-part order, raw-first and APPEND placement are checked on the emitted script, and non-mergeable entries must give exit 1 or a warning naming them.",
+   text="A combination table (device type x parts x ACL/chain shape x APPEND mode x raw line pattern incl. multi-table Linux raw files with and without COMMIT and further object kinds from raw/IPv6: routes, an ACL of its own, an object-group; ~800 cases, enumerated completely in thorough) plus non-mergeable raw entries (unknown command, unbound, bound twice in every binding order, name clash, reserved names) is run through the real drc; completeness (exactly once), per-part order, raw-first and APPEND placement are checked on the emitted script, and non-mergeable entries must give exit 1 or a warning naming them.",
    note="The effective target is observed indirectly through the add-everything script for an empty device; PAN-OS Netspoc rulebases are generated without explicit deny rules; NSX order is by sequence number, only completeness is checked there."),
 })
 
@@ -33,7 +33,7 @@ CLAIMED.update({
  "C13": dict(
    category="exploration", design="DESIGN.md §3 C13",
    technique="runtime monitoring: reference model over conclusive observations vs. the real missing-approve after every event of exhaustively enumerated histories",
-   text="All histories up to depth 5 (quick) / 7 (thorough) over 15 event kinds (new policy same/v4/v6/raw, approve ok/failed, compare, drift, repair, bzip2, removal, four kinds of status damage) are executed: status updates by the repository's own status.SetApprove/SetCompare (statusdrv rebuilt from /repo), file events as real file operations, and the real missing-approve binary is run after every event; plus every byte-offset truncation of the status contents seen. Exact-state memoisation only.",
+   text="All histories up to depth 5 (quick) / 7 (thorough) over 15 event kinds (new policy same/v4/v6/raw, approve ok/failed, compare, drift, repair, bzip2, removal, four kinds of status damage) are executed: status updates by the repository's own status.SetApprove/SetCompare (statusdrv rebuilt from /repo), for devices with the code file layouts v4+v6+raw, v6+raw, v4, v6, v4+raw (the first at full depth, the others one less), file events as real file operations, and the real missing-approve binary is run after every event; plus every byte-offset truncation of the status contents seen. Exact-state memoisation only.",
    note="The abstraction do-approve => SetApprove(failed)/SetCompare(changed||errors) is read off doapprove.Main; forged-but-valid JSON status files and compressing the current policy are outside the claim."),
  "C19": dict(
    category="fault_enumeration", design="DESIGN.md §3 C19",
@@ -46,17 +46,17 @@ CLAIMED.update({
  "C06": dict(
    category="fault_enumeration", design="DESIGN.md §3 C06",
    technique="runtime monitoring: classified transcript of stateful device simulators over the enumerated product of interlock conditions",
-   text="The full product device type x front-end x 3 pending-change scenarios x 6 hostname variants x 5 marker variants x 7 PAN-OS HA constellations (1812 live runs) is executed against the simulators; where an interlock condition holds the transcript must hold no config-change and no save/commit event, exit != 0 and an ERROR>>> diagnostic, otherwise approve must apply exactly the reference run's changes and save.",
+   text="The full product device type x front-end x 3 pending-change scenarios (PAN-OS incl. a device with two vsys of which only the first lacks the marker) x 6 hostname variants x 5 marker variants x 7 PAN-OS HA constellations (about 2200 live runs) is executed against the simulators; where an interlock condition holds the transcript must hold no config-change and no save/commit event, exit != 0 and an ERROR>>> diagnostic, otherwise approve must apply exactly the reference run's changes and save.",
    note="Simulators are written from the dialogue the tool expects and from device documentation; NSX reports neither hostname nor marker nor HA state, so only the works-normally clause applies there. A 1-in-25 sample runs under -race."),
  "C09": dict(
    category="fault_enumeration", design="DESIGN.md §3 C09",
    technique="runtime monitoring with peer fault injection at every dialogue position; transcript + exit status + status/history oracle",
-   text="For 5 device types x {drc, do-approve approve, do-approve compare} x 3 scenarios a fault of every kind (error text, unexpected output, wrong echo, silent exit status, close, stall, HTTP 4xx/5xx, malformed body, status=error, commit/job FAIL) is injected at every ordinal position of the reference dialogue; after a delivered fault no later change/save may be sent, exit != 0, status FAILED/DIFF and history END: FAILED; on every run status OK requires no delivered fault, all commands accepted and a confirmed save.",
+   text="For 5 device types x {drc, do-approve approve, do-approve compare} x 3 scenarios a fault of every kind (error text, unexpected output, tolerated notice lines followed by an error line, wrong echo, silent exit status, close, stall, HTTP 4xx/5xx, malformed body, status=error, commit/job FAIL) is injected at every ordinal position of the reference dialogue (PAN-OS incl. a two-vsys device, ASA incl. a device that needs session set-up), plus seven IOS write-memory variants (NVRAM question then OK / too large / open failed, too large, no [OK], busy once, busy always); after a delivered fault no later change/save may be sent, exit != 0, status FAILED/DIFF and history END: FAILED; on every run status OK requires no delivered fault, all commands accepted and a confirmed save.",
    note="Output-type faults count only at steps whose answer is a verdict (login, hostname, retrieval, change, guard, save); the second half of a joined line cannot be stopped; dropped HTTP connections stay dead. Quick samples stalls (1 s each) at every 5th position."),
  "C11": dict(
    category="fault_enumeration", design="DESIGN.md §3 C11",
    technique="runtime monitoring: absence of change/save events in the simulator transcript of compare runs, with faults at every position and interlock variants",
-   text="Compare runs (drc -C, do-approve compare) for all device types, 3 scenarios with differences, 5 interlock variants and a fault of each kind at every dialogue position; the transcript must contain no config-change and no save/commit event.",
+   text="Compare runs (drc -C, do-approve compare) for all device types, 3 scenarios with differences, 5 interlock variants, other spellings of the compare verb and flag (Compare, COMPARE, --compare, -qC, --compare=true) and a fault of each kind at every dialogue position; the transcript must contain no config-change and no save/commit event.",
    note="State is initial config + accepted change events, so unchanged state equals no accepted change event. ASA terminal width is a session setting."),
 })
 
@@ -64,12 +64,12 @@ CLAIMED.update({
  "C12": dict(
    category="fault_enumeration", design="DESIGN.md §3 C12",
    technique="runtime monitoring with schedule control (build-tag gates, simulator parking, SIGKILL) + porcupine linearizability check of the recorded lock history",
-   text="The product holder (4 kinds) x phase (after-lock, login, config read, mid-apply, save, before status write) x contender (6 spellings/front-ends) x {1,3 contenders} x {release, SIGKILL} on two device types is executed (thorough: all 864 schedules, quick: 1-in-5); contenders must exit 1 with 'Approve in progress', open no simulator session and change no status/history/log file while the holder is parked, a later run must get the lock; ungated stress rounds of 8 simultaneous runs check session events for interleaving and the lock history with porcupine.",
+   text="The product holder (4 kinds) x phase (after-lock, login, config read, mid-apply, save, before status write) x contender (6 spellings/front-ends) x {1,3 contenders} x {release, SIGKILL} on two device types is executed (thorough: all 864 schedules, quick: 1-in-5), holders under GC stress (GOGC=1) and with a connection helper that ignores SIGHUP and outlives the holder by 1.5 s; contenders must exit 1 with 'Approve in progress', open no simulator session and change no status/history/log file while the holder is parked, a later run must get the lock; ungated stress rounds of 8 simultaneous runs check session events for interleaving and the lock history with porcupine.",
    note="Crash = SIGKILL; kernel flock semantics are trusted. Gates are the verif-tagged verifhook.Point calls right after SetLock and before status.Set*."),
  "C15": dict(
    category="fault_enumeration", design="DESIGN.md §3 C15",
    technique="runtime monitoring: IOS simulator with reload state machine injecting asynchronous banners at enumerated positions/forms/chunkings; transcript ordering invariants + outcome equality with the banner-free run",
-   text="23 IOS change scripts x every received line of the guarded window x banner form (before echo with own prompt, inside echo at 3 offsets, after echo without / with own prompt, after the regular prompt) x kind (2:00, 1:00, ABORTED placement) x 3 write chunkings (~7000 live runs thorough, 1-in-8 quick): every change inside the armed window, write memory only after cancel and without rejected change, nothing pending after success, same exit status and change sequence as without banner, re-arm after a 1:00 banner.",
+   text="23 IOS change scripts x every received line of the guarded window x banner form (before echo with own prompt, inside echo at 3 offsets, after echo without / with own prompt, after the regular prompt) x kind (2:00, 1:00, ABORTED placement) x 3 write chunkings, the confirmation step of the arm dialogue included (~7000 live runs thorough, quick a 1-in-4 hash sample): every change inside the armed window, write memory only after cancel and without rejected change, nothing pending after success, same exit status and change sequence as without banner, re-arm after a 1:00 banner.",
    note="Only banner forms the device is known to produce; the simulated router never actually reloads; a banner with own prompt between echo and output of 'configure terminal' is not generated."),
  "C17": dict(
    category="exploration", design="DESIGN.md §3 C17",
@@ -89,11 +89,11 @@ CLAIMED.update({
    note="Kernel spelling is limited to the option set of the model's printer; both spellings are printed from one semantic value."),
  "C07": dict(category="exploration", design="DESIGN.md §3 C07",
    technique="runtime monitoring: frame monitor on the unmanaged projection of the device model after every executed command",
-   text="Pairs from the convergence generators with an unmanaged layer (ASA/IOS: manual ACLs and groups, interface unknown to Netspoc with bound ACL, unmanaged group-policy, snmp/ntp/logging/aaa-server/policy-map lines, unmanaged VRF routes; PAN-OS: foreign vsys and shared objects; NSX: objects without Netspoc prefix) are executed on the models; the unmanaged projection must be identical after every command.",
-   note="Unmanaged content is what the generator adds; names are fixed so the projection is exact."),
+   text="Pairs from the convergence generators with an unmanaged layer (ASA/IOS: manual ACLs and groups, interface unknown to Netspoc with bound ACL, unmanaged group-policy, snmp/ntp/logging/aaa-server/policy-map lines, unmanaged VRF routes; PAN-OS: foreign vsys and shared objects; NSX: objects without Netspoc prefix incl. ids that contain the prefix elsewhere, differ in case or extend it; ASA additionally left-over -DRC- objects that hand-made configuration still references over two levels and an unmanaged interface with in/out ACLs and a crypto map) are executed on the models, every 4th PAN-OS/NSX pair as a complete live approve against the simulator backed by the model; a delete the model refuses is replayed on a permissive twin and every live write is judged by the id it addresses (attempts count); the unmanaged projection must be identical after every command.",
+   note="Unmanaged content is what the generator adds; names carry fixed markers so the projection is exact."),
  "C08": dict(category="exploration", design="DESIGN.md §3 C08",
    technique="runtime monitoring: device models that reject exactly the five rule classes of the statement while executing the emitted script in order",
-   text="Every command of the scripts for ASA, IOS, PAN-OS and NSX pairs is executed in order on the models, which reject references to absent objects, deletion of referenced objects, duplicate ACL entries, wrong line/sequence positions and sub-commands outside their mode; joined two-command entries are judged after both halves.",
+   text="Every command of the scripts for ASA, IOS, PAN-OS and NSX pairs is executed in order on the models, which reject references to absent objects, deletion of referenced objects, duplicate ACL entries, wrong line/sequence positions and sub-commands outside their mode (an 'exit' at (config) level leaves configuration mode, what follows is refused); joined two-command entries are judged after both halves; every 4th PAN-OS/NSX pair is a complete live approve against the simulator backed by the model.",
    note="Nothing beyond the five rules is demanded; other irregularities are anomalies; unmodelled commands are inconclusive."),
 })
 
@@ -104,7 +104,7 @@ CLAIMED.update({
    note="A crash leaves exactly the first k commands applied; PAN-OS prefixes are candidate-config states; Linux iptables load is atomic."),
  "C14": dict(category="exploration", design="DESIGN.md §3 C14",
    technique="runtime monitoring: step monitor evaluating every packet of a small universe against the bound ACLs (and the routed destinations) after every executed script entry",
-   text="(old, new) ACL pairs over a small universe (4 hosts, 2 nets, 2 ports, tcp/udp/ip), related by edits, by several interacting line edits in one ACL, by a block-split construction (new lines of the other action inside one long block plus moved lines) or drawn independently, and route-set pairs are fed to the real drc; the script is executed entry by entry (joined entry = one step) on the ASA/IOS/Linux models; after each step every packet on which old and new agree must get that verdict, every destination routed before and after must be routed. quick 2400 pairs, thorough 30000.",
+   text="(old, new) ACL pairs over a small universe (4 hosts, 2 nets, 2 ports, tcp/udp/ip), related by edits, by several interacting line edits in one ACL, by a block-split construction (new lines of the other action inside one long block plus moved lines) or drawn independently, by an exception entry that is replaced by a wider one further down while the broad entry moves, and route-set pairs incl. nested prefixes with one network address are fed to the real drc; the script is executed entry by entry (joined entry = one step) on the ASA/IOS/Linux models; after each step every packet on which old and new agree must get that verdict, every probe address (first, second, last, middle of each prefix) covered by routes before and after must be covered. quick 2400 pairs, thorough 30000.",
    note="Verdict = permit/deny of the first matching entry; an unbound interface counts as a different verdict; object-groups are not generated (excluded by the statement)."),
 })
 
